@@ -32,6 +32,8 @@ mod key;
 pub use key::Key;
 
 mod asyncify;
+#[cfg(feature = "verif")]
+mod verif;
 pub use asyncify::*;
 
 mod fd;
